@@ -82,7 +82,10 @@ pub fn set_trap(on: bool) {
 pub fn pre(site: &'static str, holds: bool) {
     SITES.with(|sites| {
         let mut sites = sites.borrow_mut();
-        let idx = match sites.iter().position(|s| s.name == site) {
+        let idx = match sites
+            .iter()
+            .position(|s| std::ptr::eq(s.name, site) || s.name == site)
+        {
             Some(i) => i,
             None => {
                 sites.push(Site {
